@@ -141,6 +141,7 @@ receiveLoop:
 	for {
 		select {
 		case msg, ok := <-leftMessages:
+			verifJoinRecv(true, !ok)
 			if !ok {
 				leftDone = true
 				break receiveLoop
@@ -187,6 +188,7 @@ receiveLoop:
 			// TODO: Add backpressure
 
 		case msg, ok := <-rightMessages:
+			verifJoinRecv(false, !ok)
 			if !ok {
 				leftDone = false
 				break receiveLoop
@@ -256,6 +258,7 @@ receiveLoop:
 	}
 
 	for msg := range openChannel {
+		verifJoinRecv(!leftDone, false)
 		if msg.err != nil {
 			return msg.err
 		}
@@ -280,6 +283,8 @@ receiveLoop:
 			myRecordBuffer.AddRecord(msg.record)
 		}
 	}
+
+	verifJoinRecv(!leftDone, true)
 
 	if err := processRecordsUpTo(ctx, WatermarkMaxValue); err != nil {
 		return err
